@@ -9,6 +9,7 @@ package resharing
 import (
 	"encoding/hex"
 	"errors"
+	"fmt"
 	"math/big"
 	"sync"
 
@@ -56,6 +57,7 @@ func (round *round4) Start() *tss.Error {
 	dlnProof1FailCulprits := make([]*tss.PartyID, len(round.temp.dgRound2Message1s))
 	dlnProof2FailCulprits := make([]*tss.PartyID, len(round.temp.dgRound2Message1s))
 	wg := new(sync.WaitGroup)
+	var duplicate error
 	for j, msg := range round.temp.dgRound2Message1s {
 		r2msg1 := msg.Content().(*DGRound2Message1)
 		paiPK, NTildej, H1j, H2j := r2msg1.UnmarshalPaillierPK(),
@@ -66,11 +68,13 @@ func (round *round4) Start() *tss.Error {
 			return round.WrapError(errors.New("h1j and h2j were equal for this party"), msg.GetFrom())
 		}
 		h1JHex, h2JHex := hex.EncodeToString(H1j.Bytes()), hex.EncodeToString(H2j.Bytes())
-		if _, found := h1H2Map[h1JHex]; found {
-			return round.WrapError(errors.New("this h1j was already used by another party"), msg.GetFrom())
+		// see keygen round 2: a duplicate is only reported (without a culprit) once the proofs have been
+		// verified, because either of the two parties may have replayed the other's message
+		if _, found := h1H2Map[h1JHex]; found && duplicate == nil {
+			duplicate = fmt.Errorf("this h1j was already used by another party (second use by %s)", msg.GetFrom())
 		}
-		if _, found := h1H2Map[h2JHex]; found {
-			return round.WrapError(errors.New("this h2j was already used by another party"), msg.GetFrom())
+		if _, found := h1H2Map[h2JHex]; found && duplicate == nil {
+			duplicate = fmt.Errorf("this h2j was already used by another party (second use by %s)", msg.GetFrom())
 		}
 		h1H2Map[h1JHex], h1H2Map[h2JHex] = struct{}{}, struct{}{}
 		wg.Add(3)
@@ -112,6 +116,9 @@ func (round *round4) Start() *tss.Error {
 		if culprit != nil {
 			return round.WrapError(errors.New("dln proof verification failed"), culprit)
 		}
+	}
+	if duplicate != nil {
+		return round.WrapError(duplicate)
 	}
 	// save NTilde_j, h1_j, h2_j received in NewCommitteeStep1 here
 	for j, msg := range round.temp.dgRound2Message1s {
